@@ -8,7 +8,7 @@ obligation ``gen:<target>``).
 
 usage: py2coq.py [--repo /repo] [--out /verif/coq/gen]   (writes a file only when its text changed)
 """
-import ast, sys, os, textwrap, argparse
+import ast, re, sys, os, textwrap, argparse
 from fractions import Fraction
 
 
@@ -219,6 +219,48 @@ def literal_table(tree, varname, name):
     raise Unsupported('table %s not found' % varname)
 
 
+def exact_q(e, src):
+    """A numeric module-level expression made of literals and + - * / as an exact rational: the decimal literal
+    TEXT is read (96. is 96, 2.54 is 254/100), not its binary float."""
+    from fractions import Fraction
+    if isinstance(e, ast.Constant) and isinstance(e.value, (int, float)) and not isinstance(e.value, bool):
+        text = ast.get_source_segment(src, e)
+        if text is None or not re.fullmatch(r'[0-9]*\.?[0-9]*', text) or not re.search(r'[0-9]', text):
+            raise Unsupported('numeric literal %r' % (text,))
+        return Fraction(text.rstrip('.') if text.endswith('.') else text)
+    if isinstance(e, ast.UnaryOp) and isinstance(e.op, ast.USub):
+        return -exact_q(e.operand, src)
+    if isinstance(e, ast.BinOp) and type(e.op) in BIN:
+        a, b = exact_q(e.left, src), exact_q(e.right, src)
+        if isinstance(e.op, ast.Add):
+            return a + b
+        if isinstance(e.op, ast.Sub):
+            return a - b
+        if isinstance(e.op, ast.Mult):
+            return a * b
+        if b == 0:
+            raise Unsupported('division by zero in table')
+        return a / b
+    raise Unsupported('table value %s' % ast.dump(e)[:80])
+
+
+def q_table(tree, src, varname, name):
+    """Module-level `VAR = {'key': <arithmetic over literals>, ...}` -> list (string * Q), exact."""
+    for s in tree.body:
+        if isinstance(s, ast.Assign) and len(s.targets) == 1 and isinstance(s.targets[0], ast.Name) \
+                and s.targets[0].id == varname:
+            if not isinstance(s.value, ast.Dict):
+                raise Unsupported('table %s: not a dict display' % varname)
+            rows = []
+            for k, v in zip(s.value.keys, s.value.values):
+                if not (isinstance(k, ast.Constant) and isinstance(k.value, str)):
+                    raise Unsupported('table %s: key %s' % (varname, ast.dump(k)[:60]))
+                fr = exact_q(v, src)
+                rows.append('(%s, (%d # %d)%%Q)' % (q(k.value), fr.numerator, fr.denominator))
+            return 'Definition %s : list (string * Q) := [%s].\n' % (name, '; '.join(rows))
+    raise Unsupported('table %s not found' % varname)
+
+
 HEADER = ('(* GENERATED by tools/py2coq.py from %s -- do not edit *)\n'
           'From Coq Require Import QArith List String.\nRequire Import WV.base.Py.\n'
           'Import ListNotations.\nOpen Scope string_scope.\n\n')
@@ -232,6 +274,9 @@ TARGETS = {
         ('fun', 'avoid_page_break', 'avoid_page_break', {}),
         ('fun', 'force_page_break', 'force_page_break', {}),
     ]),
+    'GenCssUtils': ('weasyprint/css/utils.py', [
+        ('qtable', 'LENGTHS_TO_PIXELS', 'lengths_to_pixels', {}),
+    ]),
 }
 
 
@@ -244,7 +289,8 @@ def generate(repo, out_dir, only=None):
             continue
         path = os.path.join(repo, src)
         try:
-            tree = ast.parse(open(path).read())
+            source = open(path).read()
+            tree = ast.parse(source)
         except Exception as exc:
             errors.append((fname, 'cannot parse %s: %s' % (src, exc)))
             continue
@@ -257,6 +303,8 @@ def generate(repo, out_dir, only=None):
                         parts.append(translate_wrapper(fn, coqname))
                     else:
                         parts.append(translate_function(fn, coqname, extra.get('slice_from'), extra.get('params')))
+                elif kind == 'qtable':
+                    parts.append(q_table(tree, source, pyname, coqname))
                 else:
                     parts.append(literal_table(tree, pyname, coqname))
             except Unsupported as exc:
